@@ -75,6 +75,9 @@ func (e Event) Class() string {
 		if e.Rule == "control" {
 			return fmt.Sprintf("cbind-on-control-channel(%s,conn=%d of %s)", e.C, e.N, strings.Join(e.Peers, "+"))
 		}
+		if e.Rule == "reset" {
+			return fmt.Sprintf("cbind-then-reset-data-connection(%s,conn=%d of %s)", e.C, e.N, strings.Join(e.Peers, "+"))
+		}
 
 		return fmt.Sprintf("cbind(%s,conn=%d of %s,as=%s)", e.C, e.N, strings.Join(e.Peers, "+"), e.As)
 	case "bytes":
